@@ -89,6 +89,10 @@ def run(chk):
     for m in ([0, 1, 2, 3, 5] if quick else [0, 1, 2, 3, 4, 5, 8, 16]):
         spk, script, ctrl = c05.build(rng, m, ["rnd"], script=b"\x51" + bytes([G.OP["NOP"]]) * 2)
         spend_jobs.append(c05.mkjob(rng, "ls:commit-m%d" % m, spk, script, ctrl))
+    # commitments that fail (wrong parity bit): the failing step is not passed, so the marker stays on it however often it is tried
+    for m in (0, 1, 3):
+        spk, script, ctrl = c05.build(rng, m, ["rnd"], script=b"\x51" + bytes([G.OP["NOP"]]) * 2, parity_ok=False)
+        spend_jobs.append(c05.mkjob(rng, "ls:commit-fails-m%d" % m, spk, script, ctrl))
     # flag modifications that change which sections exist (legacy types only: the set-up of witness types ignores flags, C03)
     for drop in ("P2SH", "CLEANSTACK", "NULLDUMMY"):
         for typ in ("p2sh", "p2pkh", "multisig"):
